@@ -345,6 +345,50 @@ def r08_8(rep, M, rid):
                       "positions never match the atoms and the call fails with ValueError (e.g. a phosphorene-like Pmna layer)", M.where(pub, calls[0]))
 
 
+def r08_8b(rep, M, rid):
+    """second half of the setting typestate: besides the axis order, the origin and the scale along the non-periodic axis of a 2D
+    system are changed after the letters have been fixed (centring translation, cell minimisation); a letter whose expression has
+    a *constant* coordinate along that axis (a flat layer on the plane z = 0 of the standard setting) then no longer describes
+    the shifted atoms"""
+    GEO = "matid.geometry.geometry"
+    gcs = SA + ".get_conventional_system"
+    pub = SA + ".get_wyckoff_sets_conventional"
+    fn = M.func(gcs)
+    gs = M.calls_to(gcs, SA + "._find_wyckoff_ground_state")
+    if not gs:
+        raise AnalysisError("get_conventional_system: _find_wyckoff_ground_state not called")
+    fl = Flow(fn)
+    moved = []
+    for c in [x for x in ast.walk(fn) if isinstance(x, ast.Call)]:
+        after = any(fl.cfg.reaches(fl.node_of(g), fl.node_of(c)) and fl.node_of(g) != fl.node_of(c) for g in gs)
+        if not after:
+            continue
+        if isinstance(c.func, ast.Attribute) and c.func.attr in ("translate", "set_positions", "set_scaled_positions", "set_cell", "rattle"):
+            moved.append((c, f".{c.func.attr}()"))
+        elif GEO + ".get_minimized_cell" in M.callees_of_call(gcs, c):
+            moved.append((c, "get_minimized_cell()"))
+        elif GEO + ".translate" in M.callees_of_call(gcs, c):
+            moved.append((c, "translate()"))
+    pubfn = M.func(pub)
+    src = ast.unparse(pubfn)
+    # an undo would have to restore origin and cell before _get_wyckoff_sets: a recorded standard-setting copy, or inverse operations
+    restores = any(isinstance(a, ast.Attribute) and isinstance(a.value, ast.Name) and a.value.id == "self" and "standard" in a.attr for a in ast.walk(pubfn)) \
+        or ("translate" in src and "set_cell" in src)
+    rep.count("coordinate_changes_after_letters_are_fixed", len(moved))
+    if not moved:
+        rep.ok(rid, "the conventional system keeps the coordinates of the standard setting along every axis")
+    elif restores:
+        rep.ok(rid, "origin / scale changes of the 2D conventional system are undone (or a standard-setting copy is used) before the parameters are resolved")
+    else:
+        what = ", ".join(sorted({w for _, w in moved}))
+        rep.violation(rid, "get_wyckoff_sets_conventional: origin and scale along the non-periodic axis of a 2D system",
+                      f"after the Wyckoff letters are fixed get_conventional_system changes the coordinates along the non-periodic axis ({what}: centring "
+                      "by a non-lattice translation, then rescaling the cell) and get_wyckoff_sets_conventional matches the moved atoms against the "
+                      "standard-setting expressions. Letters whose expression has a constant along that axis (e.g. Pmmm 2m (0,y,0) for a flat layer lying "
+                      "on z = 0, which is centred to z = 1/2) can no longer be matched: ValueError 'Could not resolve the free Wyckoff parameters' although "
+                      "has_free_wyckoff_parameters is True", M.where(gcs, moved[0][0]))
+
+
 def run(rep, ctx):
     M, T = ctx.model, ctx.tables
     rep.exhaustive = True
@@ -379,6 +423,16 @@ def run(rep, ctx):
     rep.rule("R08.8", "positions are matched against the tabulated expressions in the setting the expressions are written in (standard setting)")
     with rep.guard("R08.8"):
         r08_8(rep, M, "R08.8")
+        r08_8b(rep, M, "R08.8")
+    rep.rule("R08.9", "re-wrapping of the normalised positions snaps coordinates only within numerical noise (a snapped atom no longer satisfies its expressions; shared with C05)")
+    with rep.guard("R08.9"):
+        from . import c05 as _c05b
+        _c05b.r05_6(rep, ctx.model, "R08.9")
+    rep.rule("R08.10", "every tabulated position carries the letter the reference Wyckoff database assigns to an orbit placed on it (the analyzer takes the "
+             "letter from spglib and the expressions from the table; shared with C14)")
+    with rep.guard("R08.10"):
+        TO.letter_reference(rep, ctx.tables, "R08.10")
+    rep.floor("R08.10", 1700)
     rep.floor("R08.1", 26000)
     rep.floor("R08.2", 1500)
     rep.floor("R08.3", 1700)
